@@ -441,7 +441,15 @@ def _add_custom_parameters(
             dims = [f"dim_{dim_idx + i}" for i in range(data.ndim)]
             dim_idx += data.ndim
 
-            data_array = xr.DataArray(data, dims=dims).expand_dims({"id": [index]})
+            # Note: the dimension(s) are indexed (as in product mode) so that values
+            #       of different lengths can be merged
+            data_array = xr.DataArray(
+                data,
+                dims=dims,
+                coords={
+                    dim: range(size) for dim, size in zip(dims, data.shape, strict=True)
+                },
+            ).expand_dims({"id": [index]})
             data_tree = data_tree.map_over_datasets(  # type: ignore[assignment]
                 lambda dataset: dataset.assign_coords({short_name: data_array})
             )
